@@ -70,7 +70,11 @@ fn main() {
                     meta_ops: !args.iter().any(|a| a == "--no-meta"),
                     refusal_bias: args.iter().any(|a| a == "--refusals"),
                 };
-                let o = apigen::campaign(arg_u64(&args, "--seed", 1), arg_u64(&args, "--count", 100), arg_u64(&args, "--max-ops", 40), &cfg, ops, imp, arg(&args, "--snapdir"));
+                let o = if let Some(n) = arg(&args, "--perms") {
+                    apigen::perm_campaign(arg_u64(&args, "--seed", 1), n.parse().unwrap(), arg_u64(&args, "--sample", 0), ops, imp)
+                } else {
+                    apigen::campaign(arg_u64(&args, "--seed", 1), arg_u64(&args, "--count", 100), arg_u64(&args, "--max-ops", 40), &cfg, ops, imp, arg(&args, "--snapdir"))
+                };
                 println!("STAT histories {}", o.histories);
                 println!("STAT ops {}", o.ops);
                 println!("STAT distinct {}", o.distinct.len());
